@@ -251,6 +251,196 @@ theorem C05_no_grace_for_others (lower : Bytes → Bytes) (P : Policy) (now : In
   unfold validateWhy
   rcases hbad with h | ⟨n, h, hu⟩ <;> simp [h, *]
 
+/-! ### Histories: one browser session, one request at a time
+
+The property quantifies over *sequences*: "until the grace TTL has elapsed since the **first** such answer of the current
+outage … one successful check ends the episode". The single-step theorems above speak about the `grace` field of the
+session; the history theorem below ties that field to a quantity defined from the history alone. -/
+
+/-- how the provider check of a request came out -/
+inductive CheckOutcome where
+  | noCheck       -- skip-auth request, no check due, or the session was refused before any provider call
+  | confirmed     -- the due check was confirmed by the authenticator
+  | grace         -- the due check was let through under the outage grace
+  | refused       -- the due check failed
+  deriving DecidableEq, Repr
+
+def checkOutcome (P : Policy) (now : Int) (r : ReqIn) (s : Sess) (a : Ans) : CheckOutcome :=
+  if whitelisted P r then .noCheck
+  else if s.slug ≠ P.slug ∨ r.host ≠ s.host ∨ exp s.lifetime now = true then .noCheck
+  else if exp s.refresh now then
+    (match refreshWhy P now s a with | some .confirmed => .confirmed | some .grace => .grace | none => .refused)
+  else if exp s.valid now then
+    (match validateWhy P now s a with | some .confirmed => .confirmed | some .grace => .grace | none => .refused)
+  else .noCheck
+
+/-- **The first failure of the current outage, defined from the history alone**: set by the first grace-served check
+while unset, kept while further checks are grace-served or none is due, forgotten by a confirmed (or refused) check. -/
+def episodeAfter (ep : Option Int) (o : CheckOutcome) (now : Int) : Option Int :=
+  match o with
+  | .noCheck => ep
+  | .grace => some (ep.getD now)
+  | .confirmed => none
+  | .refused => none
+
+structure LStep where
+  now : Int
+  req : ReqIn
+  ans : Ans
+
+/-- the browser's cookie jar after a response: the last `Set-Cookie` wins -/
+def jarAfter (c : CookieIn) (ws : List CookieWrite) : CookieIn :=
+  match ws.getLast? with
+  | some (.save s) => .opens s
+  | some .clear => .absent
+  | none => c
+
+/-- a linear history: every request presents the cookie the previous response left. For each step: the cookie
+presented and the episode start *as the history defines it*. -/
+def runL (lower : Bytes → Bytes) (P : Policy) : CookieIn → Option Int → List LStep → List (CookieIn × Option Int × LStep)
+  | _, _, [] => []
+  | c, ep, st :: t =>
+    let o := match c with | .opens s => checkOutcome P st.now st.req s st.ans | _ => .noCheck
+    (c, ep, st) :: runL lower P (jarAfter c (proxy lower P st.now st.req c st.ans).writes) (episodeAfter ep o st.now) t
+
+/-- one step: whatever session the response leaves in the jar carries, as its grace start, exactly the episode start
+the history defines. -/
+theorem step_grace_is_episode (lower : Bytes → Bytes) (P : Policy) (st : LStep) (s s' : Sess)
+    (h : jarAfter (.opens s) (proxy lower P st.now st.req (.opens s) st.ans).writes = .opens s') :
+    s'.grace = episodeAfter s.grace (checkOutcome P st.now st.req s st.ans) st.now := by
+  unfold checkOutcome
+  unfold proxy at h
+  by_cases hw : whitelisted P st.req = true
+  · simp [hw, jarAfter] at h ⊢; subst h; rfl
+  · simp only [hw, Bool.false_eq_true, if_false] at h ⊢
+    replace h : jarAfter (.opens s) (authenticate lower P st.now st.req.host (.opens s) st.ans).writes = .opens s' := by
+      cases hres : (authenticate lower P st.now st.req.host (.opens s) st.ans).res <;> simpa [hres] using h
+    unfold authenticate at h
+    simp only at h
+    by_cases h1 : s.slug ≠ P.slug
+    · simp [h1, jarAfter] at h
+    · by_cases h2 : st.req.host ≠ s.host
+      · simp [h1, h2, jarAfter] at h
+      · by_cases h3 : exp s.lifetime st.now = true
+        · simp [h1, h2, h3, jarAfter] at h
+        · have hpre : ¬ (s.slug ≠ P.slug ∨ st.req.host ≠ s.host ∨ exp s.lifetime st.now = true) := by
+            simp only [not_or]; exact ⟨h1, h2, h3⟩
+          simp only [h1, h2, h3, hpre, if_false] at h ⊢
+          by_cases hr : exp s.refresh st.now = true
+          · simp only [hr, if_true] at h ⊢
+            have hiff := refreshSession_ok_iff P st.now s st.ans
+            have heff := (C05_grace_step_effect P st.now s st.ans).1
+            have hres := (C05_success_resets P st.now s st.ans).1
+            rcases hrs : refreshSession P st.now s st.ans with ⟨s1, r, calls⟩
+            rw [hrs] at h hiff heff hres
+            cases r with
+            | error e => simp [jarAfter] at h
+            | ok b =>
+              cases b with
+              | false => simp [jarAfter] at h
+              | true =>
+                have hsome : (refreshWhy P st.now s st.ans).isSome = true := hiff.1 rfl
+                have hs1 : s' = s1 := by
+                  by_cases hv : requestValidators lower P s1 = true
+                  · simp [hv, jarAfter] at h; exact h.symm
+                  · simp [hv, jarAfter] at h
+                subst hs1
+                cases hwy : refreshWhy P st.now s st.ans with
+                | none => rw [hwy] at hsome; simp at hsome
+                | some w =>
+                  cases w with
+                  | confirmed => simp [episodeAfter]; exact hres hwy
+                  | grace => simp [episodeAfter]; exact (heff hwy).1
+          · simp only [hr, Bool.false_eq_true, if_false] at h ⊢
+            by_cases hv0 : exp s.valid st.now = true
+            · simp only [hv0, if_true] at h ⊢
+              have hiff := validateSession_true_iff P st.now s st.ans
+              have heff := (C05_grace_step_effect P st.now s st.ans).2
+              have hres := (C05_success_resets P st.now s st.ans).2
+              rcases hrs : validateSession P st.now s st.ans with ⟨s1, b, calls⟩
+              rw [hrs] at h hiff heff hres
+              cases b with
+              | false => simp [jarAfter] at h
+              | true =>
+                have hsome : (validateWhy P st.now s st.ans).isSome = true := hiff.1 rfl
+                have hs1 : s' = s1 := by
+                  by_cases hv : requestValidators lower P s1 = true
+                  · simp [hv, jarAfter] at h; exact h.symm
+                  · simp [hv, jarAfter] at h
+                subst hs1
+                cases hwy : validateWhy P st.now s st.ans with
+                | none => rw [hwy] at hsome; simp at hsome
+                | some w =>
+                  cases w with
+                  | confirmed => simp [episodeAfter]; exact hres hwy
+                  | grace => simp [episodeAfter]; exact (heff hwy).1
+            · simp only [hv0, Bool.false_eq_true, if_false] at h ⊢
+              by_cases hv : requestValidators lower P s = true
+              · simp [hv, jarAfter] at h; subst h; rfl
+              · simp [hv, jarAfter] at h
+
+/-- a cookie that is absent or undecodable never turns into a session by being presented -/
+theorem jar_stays_empty (lower : Bytes → Bytes) (P : Policy) (st : LStep) (c : CookieIn) (hc : ∀ s, c ≠ .opens s) (s' : Sess) :
+    jarAfter c (proxy lower P st.now st.req c st.ans).writes ≠ .opens s' := by
+  cases c with
+  | opens s => exact absurd rfl (hc s)
+  | absent => unfold proxy; split <;> simp [jarAfter, authenticate]
+  | junk => unfold proxy; split <;> simp [jarAfter, authenticate]
+
+/-- **Grace start = first failure of the current outage, along every history.** Start from any session whose grace
+start agrees with the episode start (a fresh login: both unset). At every step of every linear history — any time gaps,
+any answers at `/refresh`, `/validate`, `/profile` — the session presented carries, as its grace start, exactly the time of
+the first grace-served check since the last confirmed one. -/
+theorem C05_grace_start_is_first_failure (lower : Bytes → Bytes) (P : Policy) (c : CookieIn) (ep : Option Int) (sts : List LStep)
+    (h0 : ∀ s, c = .opens s → s.grace = ep) :
+    ∀ x ∈ runL lower P c ep sts, ∀ s, x.1 = .opens s → s.grace = x.2.1 := by
+  induction sts generalizing c ep with
+  | nil => intro x hx; simp [runL] at hx
+  | cons st t ih =>
+    intro x hx s hs
+    simp only [runL, List.mem_cons] at hx
+    rcases hx with rfl | hx
+    · exact h0 s hs
+    · refine ih _ _ ?_ x hx s hs
+      intro s' hs'
+      cases c with
+      | opens s0 =>
+        have := step_grace_is_episode lower P st s0 s' hs'
+        rw [h0 s0 rfl] at this
+        exact this
+      | absent => exact absurd hs' (jar_stays_empty lower P st .absent (by intro s; simp) s')
+      | junk => exact absurd hs' (jar_stays_empty lower P st .junk (by intro s; simp) s')
+
+/-- **Bounded along every history.** A check that is let through under grace at time `now` happens strictly less than
+the grace TTL after the first failure of the current outage *as the history defines it* (or is itself that first
+failure) — however many requests, refreshes, revalidations and partial recoveries lie in between; with `G = 0` no check
+is ever grace-served. -/
+theorem C05_grace_bounded_history (lower : Bytes → Bytes) (P : Policy) (s0 : Sess) (sts : List LStep) (h0 : s0.grace = none) :
+    ∀ x ∈ runL lower P (.opens s0) none sts, ∀ s, x.1 = .opens s →
+      checkOutcome P x.2.2.now x.2.2.req s x.2.2.ans = .grace → x.2.2.now < x.2.1.getD x.2.2.now + P.G := by
+  intro x hx s hs hg
+  have hep := C05_grace_start_is_first_failure lower P (.opens s0) none sts (by intro s h; cases h; exact h0) x hx s hs
+  have hwin : (withinGrace s P.G x.2.2.now).2 = true := by
+    unfold checkOutcome at hg
+    split at hg; · simp at hg
+    split at hg; · simp at hg
+    split at hg
+    · cases hwy : refreshWhy P x.2.2.now s x.2.2.ans with
+      | none => rw [hwy] at hg; simp at hg
+      | some w => cases w with
+        | confirmed => rw [hwy] at hg; simp at hg
+        | grace => exact ((C05_grace_only_unavailable P x.2.2.now s x.2.2.ans).1 hwy).2
+    · split at hg
+      · cases hwy : validateWhy P x.2.2.now s x.2.2.ans with
+        | none => rw [hwy] at hg; simp at hg
+        | some w => cases w with
+          | confirmed => rw [hwy] at hg; simp at hg
+          | grace => exact ((C05_grace_only_unavailable P x.2.2.now s x.2.2.ans).2 hwy).2
+      · simp at hg
+  have := ((C05_grace_window s P.G x.2.2.now).1).1 hwin
+  rw [hep] at this
+  omega
+
 /-! ### Non-vacuity -/
 def exOut : Ans := { refresh := .status 503, validate := .status 503, profile := .status 503 }
 -- first failure at t=150 stamps the start; served; at t=700 (< 150+600) still served with the same start; at t=760 refused
@@ -259,5 +449,12 @@ example : (proxy id exPol 700 exReq (.opens { exSess with valid := 210, refresh 
     = .forward (some ⟨"a", [97, 64, 120], [], none⟩) := by decide
 example : (proxy id exPol 760 exReq (.opens { exSess with valid := 210, grace := some 150 }) exOut).outcome = .errorPage 500 := by decide
 example : (proxy id exPol 150 exReq (.opens exSess) { exOut with validate := .status 500 }).outcome = .errorPage 403 := by decide
+-- a history: outage at 150 (first failure), still out at 400 and 700, back at 720 (episode ends), out again at 800 (fresh start)
+def exLin : List LStep := [⟨150, exReq, exOut⟩, ⟨400, exReq, exOut⟩, ⟨700, exReq, exOut⟩, ⟨720, exReq, exAns⟩, ⟨800, exReq, exOut⟩]
+example : (runL id exPol (.opens exSess) none exLin).map (·.2.1) = [none, some 150, some 150, some 150, none] := by decide
+example : (runL id exPol (.opens exSess) none exLin).map (fun x => match x.1 with | .opens s => s.grace | _ => some (-1))
+    = [none, some 150, some 150, some 150, none] := by decide
+example : (runL id exPol (.opens exSess) none exLin).map (fun x => match x.1 with
+    | .opens s => checkOutcome exPol x.2.2.now x.2.2.req s x.2.2.ans | _ => .noCheck) = [.grace, .grace, .grace, .confirmed, .grace] := by decide
 
 end Sso.Proxy
